@@ -23,12 +23,16 @@ ASSUMPTIONS = [
     "'restricted to its output slice' refers to the wrapper's output_slice (slice_solution is used by loss terms, C05)",
     "float64, rtol 1e-9",
     "shared-output networks have >= 2 outputs (a one-output network with a shared slice is not generated)",
+    "shared output slices are whatever jnp.s_ can express on one axis (contiguous, integers from either end, negative bounds, steps, overlapping), always selecting >= 1 output",
 ]
 TIMEOUT = {"quick": 1200, "thorough": 3600}
 MIN_COUNTERS = {"quick": {"pinn_calls_compared": 100, "spinn_grids_compared": 12, "hyper_calls_compared": 20,
-                          "bare_params_calls": 20, "shared_output_sets": 8},
+                          "bare_params_calls": 20, "shared_output_sets": 8, "shared_slice_form_negative_int": 4,
+                          "shared_slice_form_int": 4, "shared_slice_form_negative_bound": 4},
                 "thorough": {"pinn_calls_compared": 2000, "spinn_grids_compared": 200, "hyper_calls_compared": 400,
-                             "bare_params_calls": 400, "shared_output_sets": 150}}
+                             "bare_params_calls": 400, "shared_output_sets": 150, "shared_slice_form_negative_int": 40,
+                             "shared_slice_form_int": 40, "shared_slice_form_negative_bound": 40,
+                             "shared_slice_form_step": 10, "shared_output_sets_hyper": 10}}
 ACTS = ["tanh", "sin", "softplus"]
 
 
@@ -108,6 +112,48 @@ def eqx_list_for(n_in, widths, acts, n_out, final_act):
     return tuple(lst), names
 
 
+def slice_form(sl):
+    if isinstance(sl, int):
+        return "negative_int" if sl < 0 else "int"
+    if sl.step not in (None, 1):
+        return "step"
+    if (sl.start or 0) < 0 or (sl.stop or 0) < 0:
+        return "negative_bound"
+    return "contiguous"
+
+
+def shared_slices(rng, n_out, seed):
+    """The output slices handed to shared_pinn_outputs and their numpy twins (python ints / slices).
+    Half of the sets partition the outputs into contiguous slices; the others mix every indexing form a
+    user can write with jnp.s_: integers (from either end), negative bounds, steps, overlaps."""
+    if seed % 2 == 0:
+        cuts = sorted(set(rng.integers(1, n_out, size=min(2, n_out - 1)).tolist()))
+        bounds = [0] + cuts + [n_out]
+        sl = [slice(bounds[i], bounds[i + 1]) for i in range(len(bounds) - 1)]
+    else:
+        forms = []
+        for _ in range(int(rng.integers(2, 5))):
+            f = int(rng.integers(6))
+            if f == 0:
+                forms.append(int(rng.integers(0, n_out)))
+            elif f == 1:
+                forms.append(-int(rng.integers(1, n_out + 1)))
+            elif f == 2:
+                forms.append(slice(-int(rng.integers(1, n_out + 1)), None))
+            elif f == 3:
+                forms.append(slice(None, -int(rng.integers(1, n_out))))
+            elif f == 4:
+                forms.append(slice(int(rng.integers(0, 2)), None, 2))
+            else:
+                a = int(rng.integers(0, n_out))
+                forms.append(slice(a, int(rng.integers(a + 1, n_out + 1))))
+        # the last output as a bare negative integer is what "the pressure is the last output" looks like
+        if seed % 4 == 1:
+            forms[-1] = -1
+        sl = forms
+    return tuple(sl), list(sl)
+
+
 def run_case(case, rec):
     import equinox as eqx
     import jax
@@ -150,10 +196,7 @@ def run_case(case, rec):
         lst, names = eqx_list_for(D, case["widths"], case["acts"], n_out, case["final_act"])
         shared = None
         if kind == "shared":
-            cuts = sorted(set(rng.integers(1, n_out, size=min(2, n_out - 1)).tolist())) if n_out > 1 else []
-            bounds = [0] + cuts + [n_out]
-            shared = tuple(jnp.s_[bounds[i]:bounds[i + 1]] for i in range(len(bounds) - 1))
-            sl_np = [(bounds[i], bounds[i + 1]) for i in range(len(bounds) - 1)]
+            shared, sl_np = shared_slices(rng, n_out, case["seed"])
         us = guard.call(jinns.utils.create_PINN, key, lst, eqt, dx, input_transform=in_tr,
                         output_transform=out_tr, shared_pinn_outputs=shared)
         ulist = us if isinstance(us, list) else [us]
@@ -172,14 +215,17 @@ def run_case(case, rec):
             raw = np.atleast_1d(raw.squeeze())
             full = np.atleast_1d(out_np(z, raw if n_out > 1 else raw.reshape(())))
             for j, u in enumerate(ulist):
-                exp = full if kind == "pinn" else full[sl_np[j][0]:sl_np[j][1]]
+                exp = full if kind == "pinn" else np.atleast_1d(full[sl_np[j]])
                 got = np.asarray(call_u(u, z, params))
                 rec.count("pinn_calls_compared")
                 if got.ndim != 1:
                     rec.violation("pinn/no-trailing-component-axis", "output has shape %s (no trailing component axis)"
                                   % (got.shape,), eq_type=eqt, n_out=n_out)
                     continue
-                nontriv = np.max(np.abs(exp)) > 1e-9 and (not case["transforms"] or not close(exp, raw[: exp.size] if kind == "pinn" else raw[sl_np[j][0]:sl_np[j][1]], 1e-6, 1e-9))
+                nontriv = exp.size > 0 and np.max(np.abs(exp)) > 1e-9 and (not case["transforms"] or not close(
+                    exp, raw[: exp.size] if kind == "pinn" else np.atleast_1d(raw[sl_np[j]]), 1e-6, 1e-9))
+                if kind == "shared":
+                    rec.count("shared_slice_form_%s" % slice_form(sl_np[j]))
                 if nontriv:
                     rec.nontrivial((kind, eqt, dx, tuple(case["widths"]), tuple(case["acts"]), n_out,
                                     case["transforms"], j, ip, case["seed"]))
@@ -261,8 +307,19 @@ def run_case(case, rec):
         lst, names = eqx_list_for(D, case["widths"], case["acts"], n_out, case["final_act"])
         hw = int(rng.integers(2, 6))
         lst_h = ((eqx.nn.Linear, 1, hw), (jax.nn.tanh,), (eqx.nn.Linear, hw, 1))
-        u = guard.call(jinns.utils.create_HYPERPINN, key, lst, eqt, hyperparams, hsize, dx,
-                       input_transform=in_tr, output_transform=out_tr, eqx_list_hyper=lst_h)
+        hshared = hsl = None
+        if n_out >= 2 and case["seed"] % 3 == 0:
+            hshared, hsl = shared_slices(rng, n_out, case["seed"] // 3)
+        us = guard.call(jinns.utils.create_HYPERPINN, key, lst, eqt, hyperparams, hsize, dx,
+                        input_transform=in_tr, output_transform=out_tr, eqx_list_hyper=lst_h,
+                        shared_pinn_outputs=hshared)
+        ulist = us if isinstance(us, list) else [us]
+        if hshared is not None:
+            rec.count("shared_output_sets_hyper")
+            if len(ulist) != len(hshared):
+                rec.violation("shared/count", "%d hyper networks returned for %d output slices" % (len(ulist), len(hshared)))
+                return
+        u = ulist[0]
         nn = u.init_params()
         hyper_model = eqx.combine(nn, u.static_hyper)
         hlayers = extract_layers(hyper_model.layers, ["tanh"])
@@ -286,7 +343,19 @@ def run_case(case, rec):
         for ip in range(3):
             z = rng.uniform(-1, 2, D)
             raw = np.atleast_1d(forward_np(ilayers, in_np(z)).squeeze())
-            exp = np.atleast_1d(out_np(z, raw if n_out > 1 else raw.reshape(())))
+            full = np.atleast_1d(out_np(z, raw if n_out > 1 else raw.reshape(())))
+            for j, uj in enumerate(ulist[1:] if hshared is not None else []):
+                # the other shared-output wrappers: slices of the same hyper-generated inner network
+                expj = np.atleast_1d(full[hsl[j + 1]])
+                gotj = np.asarray(call_u(uj, z, params))
+                rec.count("hyper_calls_compared")
+                rec.count("shared_slice_form_%s" % slice_form(hsl[j + 1]))
+                if gotj.shape != expj.shape or not close(gotj, expj, 1e-9, 1e-11):
+                    rec.violation("hyper/shared-slice", "shared-output HYPERPINN %d gives %s, slice %s of the common network "
+                                  "is %s" % (j + 1, gotj, hsl[j + 1], expj), got=gotj, expected=expj)
+            exp = full if hshared is None else np.atleast_1d(full[hsl[0]])
+            if hshared is not None:
+                rec.count("shared_slice_form_%s" % slice_form(hsl[0]))
             got = np.asarray(call_u(u, z, params))
             rec.count("hyper_calls_compared")
             if np.max(np.abs(exp)) > 1e-12:
